@@ -5,6 +5,8 @@ import (
 	"context"
 	"errors"
 	"fmt"
+	"io"
+	"log/slog"
 	"net/http"
 	"strings"
 
@@ -361,6 +363,14 @@ func runServeHTTP(o *Outcome, ch *Chooser, logf func(string, ...any)) {
 	}
 	if ch.Chance(1, 3, "server without OnSession") {
 		srv.OnSession = nil
+	}
+	switch ch.Weighted([]int{4, 2, 1}, "server logger") {
+	case 1: // logging must not change what is written or to whom the session is subscribed
+		lg := slog.New(slog.NewTextHandler(io.Discard, nil))
+		srv.Logger = func(*http.Request) *slog.Logger { return lg }
+		o.probe("server with a logger")
+	case 2:
+		srv.Logger = func(*http.Request) *slog.Logger { return nil }
 	}
 	for reqN := 0; reqN < 3 && (reqN == 0 || ch.Chance(1, 2, "another request")) && len(o.Violations) == 0; reqN++ {
 		serveOne(o, ch, logf, srv, prov, reqN, &onSession, &sessTopics, &rejectWrites)
